@@ -148,4 +148,17 @@ theorem subtract_applied (m : Sys â„) (c : Clock) (i : StepIn â„) (v : CvSt â„
   simp only [hcalc, hsame, hsub, hrel, Bool.not_true, Bool.not_false, Bool.and_true, Bool.false_eq_true,
     if_false, if_true, hpos, decide_true]
 
+/-- the point the hypothesis `hnz` of `subtract_applied` excludes: when the engine's total force on the variable is exactly zero the
+    code takes it for "not measured" (`if (ft.norm2() > 0.0) ft -= f_old`) and reports `0` instead of `âˆ’f_old`: the property's
+    clause "excludes Colvars' own applied force" fails at this one input (listed finding; replayed on the implementation by the
+    directed case `zero_total` of the C07 generator) -/
+theorem subtract_applied_zero_total (m : Sys â„) (c : Clock) (i : StepIn â„) (v : CvSt â„) (hcalc : v.tfCalc = true)
+    (hsame : m.tfSame = false) (hsub : v.subtract = true) (hrel : c.stepRelative > 0) (hloop : m.tfLoop = false)
+    (hz : i.tfz v.atom = 0) :
+    (cvUpdate m c i v).ft = 0 := by
+  unfold cvUpdate
+  simp only [hcalc, hsame, hsub, hrel, hloop, hz, Bool.not_true, Bool.not_false, Bool.and_true, Bool.false_eq_true, Bool.false_and,
+    if_false, if_true, decide_true]
+  norm_num
+
 end Cv.C07
